@@ -1,6 +1,7 @@
 #!/bin/bash
 # Build the framework offline from files on disk only.
 set -e
-cd "$(dirname "$0")/harness"
+cd "$(dirname "$0")"
 export CARGO_NET_OFFLINE=true
-cargo build --release --offline -p mc 2>&1 | tail -3
+( cd harness && cargo build --release --offline -p mc -p send_sync_probe 2>&1 | tail -2 )
+python3 tools/c18.py build
